@@ -435,3 +435,59 @@ package log
 //@   requires enable(c.Level, e.Level)
 //@   modifies dlv
 //@   ensures[C01:ref-forward] dlv == tsnoc(old(dlv), 1, ifval(c.Appender), e, e.Level.code, "")
+
+// ---- C18: tag names ---------------------------------------------------------------------------------
+
+//@ func isValidTag
+//@   modifies nothing
+//@   ensures[C18:accepts-only-valid] result ==> valid_tag(tag)
+//@   ensures[C18:accepts-all-valid] valid_tag(tag) ==> result
+//@   loop 1 invariant[C18:range] 0 <= $k && $k < len(tag)  // (range-over-int loops are cut at the body entry)
+//@   loop 1 invariant[C18:alphabet] forall j int :: 0 <= j && j < $k ==> tag_alpha(tag[j])
+//@   replay tag = tag
+
+//@ spec fun builtTag(m string, s string, a string) string = a == "" ? "_" + m + "_" + s : "_" + m + "_" + s + "_" + a
+
+//@ func BuildTag
+//@   modifies nothing
+//@   panics_iff[C18:empty-subtype] subType == ""
+//@   ensures[C18:shape] result == builtTag(mainType, subType, action)
+
+//@ func RegisterTag
+//@   requires tagRegistry != nil
+//@   modifies map(tagRegistry)
+//@   panics_iff[C18,C16:guard] global.init || !valid_tag(tag)
+//@   ensures_on_panic[C18,C16:registry-unchanged] keys(tagRegistry) == old(keys(tagRegistry)) && vals(tagRegistry) == old(vals(tagRegistry))
+//@   ensures[C18:get] old(has(tagRegistry, tag)) ==> result == old(tagRegistry[tag]) && keys(tagRegistry) == old(keys(tagRegistry)) && vals(tagRegistry) == old(vals(tagRegistry))
+//@   ensures[C18:create] !old(has(tagRegistry, tag)) ==> fresh(result) && result.tag == tag && result.logger == nil && keys(tagRegistry) == upd(old(keys(tagRegistry)), tag, true) && vals(tagRegistry) == upd(old(vals(tagRegistry)), tag, result)
+//@   replay tag = tag; init = global.init
+
+//@ func GetLogger
+//@   requires loggerMap != nil
+//@   modifies map(loggerMap)
+//@   panics_iff[C12,C16:guard] global.init
+//@   ensures_on_panic[C16:registry-unchanged] keys(loggerMap) == old(keys(loggerMap)) && vals(loggerMap) == old(vals(loggerMap))
+//@   ensures[C12:get] old(has(loggerMap, name)) ==> result == old(loggerMap[name]) && keys(loggerMap) == old(keys(loggerMap)) && vals(loggerMap) == old(vals(loggerMap))
+//@   ensures[C12:create] !old(has(loggerMap, name)) ==> fresh(result) && result.name == name && result.logger == nil && keys(loggerMap) == upd(old(keys(loggerMap)), name, true) && vals(loggerMap) == upd(old(vals(loggerMap)), name, result)
+
+//@ func RegisterAppTag
+//@   requires tagRegistry != nil
+//@   modifies map(tagRegistry)
+//@   panics_iff[C18:guard] subType == "" || global.init || !valid_tag(builtTag("app", subType, action))
+//@   ensures[C18:registered] has(tagRegistry, builtTag("app", subType, action)) && result == tagRegistry[builtTag("app", subType, action)]
+
+//@ func RegisterBizTag
+//@   requires tagRegistry != nil
+//@   modifies map(tagRegistry)
+//@   panics_iff[C18:guard] subType == "" || global.init || !valid_tag(builtTag("biz", subType, action))
+//@   ensures[C18:registered] has(tagRegistry, builtTag("biz", subType, action)) && result == tagRegistry[builtTag("biz", subType, action)]
+
+//@ func RegisterRPCTag
+//@   requires tagRegistry != nil
+//@   modifies map(tagRegistry)
+//@   panics_iff[C18:guard] subType == "" || global.init || !valid_tag(builtTag("rpc", subType, action))
+//@   ensures[C18:registered] has(tagRegistry, builtTag("rpc", subType, action)) && result == tagRegistry[builtTag("rpc", subType, action)]
+
+//@ func GetAllTags
+//@   modifies elems(string)
+//@   ensures[C18:all-tags] forall t string :: (exists i int :: 0 <= i && i < len(result) && result[i] == t) <==> has(tagRegistry, t)
